@@ -116,7 +116,7 @@ def spec_events(events):
         b = list(ps[1]) if len(ps) > 1 and ps[1] else []
         op = OPMAP.get(e["op"], e["op"])
         res = e["res"]
-        ev = {"kind": "step", "k": e["k"], "op": op, "a": a, "b": b, "out": res, "e": "", "p": "none"}
+        ev = {"kind": "step", "k": e["k"], "op": op, "a": a, "b": b, "out": res, "e": "", "p": "none", "n": e["n"] or 0}
         if res == "crash":
             ev.update(kind="crash", op="crash", a=[], b=[], out="crash")
         elif res.startswith("torn:"):
@@ -577,7 +577,7 @@ def _P(box):
     return signac.Project(os.path.join(box, "P"))
 
 
-def c10_scenarios():
+def c10_scenarios(thorough=True):
     S = []
 
     def add(spec, variant, build, setup, targets, tokens, configs=("default", "nomt"), **kw):
@@ -602,6 +602,20 @@ def c10_scenarios():
     add("w_doc", "large-to-small", lambda box: build_base(box, adoc=BIG),
         lambda box: (lambda j: (lambda: j.doc.__setitem__("big", "gone")))(_P(box).open_job(SP["A"])),
         [(jdoc, BIG, dict(BIG, big="gone"), "json")], {"docA": BIG, "docNew": dict(BIG, big="gone")})
+    if thorough:  # further entry points of the same protocol
+        add("w_doc", "del-key", lambda box: build_base(box, adoc={"x": 1, "gone": [1, 2]}),
+            lambda box: (lambda j: (lambda: j.doc.__delitem__("gone")))(_P(box).open_job(SP["A"])),
+            [(jdoc, {"x": 1, "gone": [1, 2]}, {"x": 1}, "json")], {"docA": {"x": 1, "gone": [1, 2]}, "docNew": {"x": 1}})
+        add("w_doc", "nested-set", lambda box: build_base(box, adoc={"x": 1, "sub": {"a": 1}}),
+            lambda box: (lambda j: (lambda: setattr(j.doc.sub, "b", 2)))(_P(box).open_job(SP["A"])),
+            [(jdoc, {"x": 1, "sub": {"a": 1}}, {"x": 1, "sub": {"a": 1, "b": 2}}, "json")],
+            {"docA": {"x": 1, "sub": {"a": 1}}, "docNew": {"x": 1, "sub": {"a": 1, "b": 2}}})
+        add("w_doc", "update", lambda box: build_base(box),
+            lambda box: (lambda j: (lambda: j.doc.update({"u": None, "v": [True, 1.5, "s"]})))(_P(box).open_job(SP["A"])),
+            [(jdoc, {"x": 1}, {"x": 1, "u": None, "v": [True, 1.5, "s"]}, "json")], {"docNew": {"x": 1, "u": None, "v": [True, 1.5, "s"]}})
+        add("w_pdoc", "assign-large", lambda box: build_base(box, a="none", pdoc=DOCS["pdocOld"]),
+            lambda box: (lambda p: (lambda: setattr(p, "document", BIG)))(_P(box)),
+            [("P/" + FN_PDOC, {"p": 0}, BIG, "json")], {"pdocNew": BIG})
     # project document
     add("w_pdoc", "setitem", lambda box: build_base(box, a="none", pdoc=DOCS["pdocOld"]),
         lambda box: (lambda p: (lambda: p.doc.__setitem__("z", 3)))(_P(box)),
@@ -720,7 +734,7 @@ def run(ctx):
     ctx.cov["rule"] = ("case = (real scenario, configuration, fault script | reader position); distinct = distinct (spec scenario, variant, "
                        "configuration, kind, step number, prefix class / reader position); enumerated from TLC's terminal states plus the generic "
                        "enumeration over the N recorded mutating steps")
-    scens = c10_scenarios()
+    scens = c10_scenarios(thorough=not ctx.quick)
     mut = os.environ.get("VERIF_MUTATION", "")
     # ---- record the real protocols ---------------------------------------------------------------
     recs, work = record_and_enumerate(ctx, scens, nprocs)
@@ -775,7 +789,7 @@ def run(ctx):
                     continue  # post-crash reader = the crash observation itself
                 add(mode_of_script(t["script"]), "tlc")
             elif t.get("rpc") == "done" and t.get("pc") == "done" and not t["script"]:
-                add({"reader": {"i": t["rAt"][0], "j": t["rAt"][1], "target": s.kw["targets"][-1][0]}}, "tlc")
+                add({"reader": {"i": t["rAt"][0], "j": max(t["rAt"][0], t["rAt"][1]), "target": s.kw["targets"][-1][0]}}, "tlc")
         # generic enumeration over the recorded steps (independent of the model)
         for e in rec["events"]:
             add({"crash_at": e["k"]}, "generic")
@@ -875,20 +889,30 @@ def selftest(ctx, scens, recs):
 
 def hard_crosscheck(ctx, crash_cases, work, rnd, nprocs):
     """freeze semantics == real process death: re-run a sample with os._exit at the crash point, compare the disks"""
-    sample = rnd.sample(crash_cases, min(len(crash_cases), 120))
+    sample = rnd.sample(crash_cases, min(len(crash_cases), 400))
     a = core.pmap(run_case, [(template(ctx, s), work, s.key, m, {}) for s, m, _ in sample], procs=nprocs)
     b = core.pmap(run_case, [(template(ctx, s), work, s.key, dict(m, hard=True), {}) for s, m, _ in sample], procs=nprocs)
     diff = 0
     for (s, m, _), x, y in zip(sample, a, b):
         if "machinery" in x or "machinery" in y:
             raise core.MachineryError("hard-exit cross-check failed to run: %s %s" % (x.get("machinery"), y.get("machinery")))
-        nx = {UUID_TMP.sub("._<U>_", k): v for k, v in x["_snap"].items()}
-        ny = {UUID_TMP.sub("._<U>_", k): v for k, v in y["_snap"].items()}
+        def gzval(v):
+            try:
+                return canon(json.loads(gzip.decompress(v).decode()))
+            except Exception:  # noqa
+                return None
+
+        def norm(snap):
+            # uuid temp names are normalised; a gzip stream differs between two runs in its mtime header bytes and in the key
+            # order of the cache dictionary (pool threads), so it is compared by length and parsed value
+            return {UUID_TMP.sub("._<U>_", k): (("gz", len(v), gzval(v)) if isinstance(v, bytes) and ".gz" in k else v) for k, v in snap.items()}
+        nx, ny = norm(x["_snap"]), norm(y["_snap"])
         if nx != ny:
             diff += 1
+            ctx.notes.append("freeze vs kill differ: %s %s: %s" % (s.key, mode_key(m), [k for k in sorted(set(nx) | set(ny)) if nx.get(k, 0) != ny.get(k, 0)][:4]))
     ctx.cov["freeze_vs_kill"] = {"compared": len(sample), "different": diff}
     if diff:
-        raise core.MachineryError("freeze semantics of the shim differ from a real process exit in %d of %d cases" % (diff, len(sample)))
+        raise core.MachineryError("freeze semantics of the shim differ from a real process exit in %d of %d cases: %s" % (diff, len(sample), ctx.notes[-2:]))
 
 
 _AUDIT_SCRIPT = r"""
